@@ -98,14 +98,54 @@ def gen_traffic(seed, idx):
     return {"engine": "single", "property": ID, "class": "traffic", "seed": seed, "cfg": cfg, "ops": ops, "until": dur}
 
 
+NSVC = {"svc": 0x4321, "inst": 1, "major": 1, "minor": 0, "methods": {}, "eventgroups": [{"id": 1, "interval": 0.001, "values": {"1": "aa", "2": "bb"}}]}
+
+
+def gen_notify(seed, idx):
+    """a SimpleService with 1 ms cyclic notifications (2 events) to 2-3 subscribers that join at
+    different moments: each destination's counter wraps at another instant"""
+    r = rng(seed, ID, "notify", idx)
+    dur = 36.0
+    cfg = {
+        "service": NSVC,
+        "resolver": [0.0, r.choice([0.0, 0.0005])],
+        "timings": {"INITIAL_DELAY_MIN": 0, "INITIAL_DELAY_MAX": 0, "REPETITIONS_MAX": 0, "CYCLIC_OFFER_DELAY": 1000, "SEND_COLLECTION_TIMEOUT": 0, "SUBSCRIBE_REFRESH_INTERVAL": None},
+        "max_iterations": 5000000,
+    }
+    ops = [{"k": "call", "t": 0.0, "f": "start", "a": []}]
+    for p in range(r.randint(2, 3)):
+        t = round(0.01 + p * r.uniform(0.0, 3.0), 6)
+        ops.append({"k": "sd", "t": t, "p": p, "ch": "u", "e": [["sub", 0x4321, 1, 1, 1, 0xFFFFFF, 0, [["ep", 4, f"10.0.0.{11 + p}", 17, 4000]]]]})
+    for j in range(r.randint(0, 20)):
+        ops.append({"k": "call", "t": round(r.uniform(0.1, dur), 6), "f": "notify_once", "a": [1, r.choice([[1], [2], [1, 2]])]})
+    return {"engine": "svc", "property": ID, "class": "notify", "seed": seed, "cfg": cfg, "ops": ops, "until": dur}
+
+
 def gen(seed, idx, tier):
-    k = idx % 4
+    k = idx % 8
     if k == 3:
         return gen_traffic(seed, idx // 4)
+    if k == 7:
+        return gen_notify(seed, idx // 8)
     return gen_walk(seed, idx)
 
 
+def check_notify(plan, res):
+    from models.notify import NotifyOracle
+    from sim.svc import SVC_ADDR
+
+    o = NotifyOracle(plan["cfg"]["service"], plan["cfg"].get("resolver"), SVC_ADDR).walk(res.log)
+    viol = [("NOTIFY-SEQUENCE", d) for r, d in o.violations if r == "SESSION-PER-DEST"][:20]
+    wraps = sum(1 for d, n in o.session.count.items() if n > 0xFFFF)
+    probes = {"messages_judged": o.nmsg, "wraps_crossed": wraps, "destinations": len(o.session.count)}
+    for rec in res.swallowed:
+        viol.append(("NOTIFY-SEQUENCE", {"msg": f"{rec[2]} in a notification task at {rec[0]:.6f}", "context": f"task-raised:{rec[2]}"}))
+    return {"violations": viol[:20], "nontrivial": wraps > 0, "probes": probes, "states": set(), "foreign": bool(res.loop_exc or res.op_exc)}
+
+
 def check(plan, res):
+    if plan["engine"] == "svc":
+        return check_notify(plan, res)
     model = OutgoingModel()
     viol = []
     probes = {"messages_judged": 0, "empty_sends": 0}
